@@ -160,6 +160,8 @@ def run(ctx):
 
     # crashes (the last clause of the statement): fixed probes
     run_hazard(ctx, binp)
+    # volume: one pooled instance per encoding and side, reused for a few hundred MiB of valid messages
+    run_volume(ctx, binp, 160 if q else 1500)
 
     # 4. code -> spec: long seeded histories of real instances, accepted line by line by Trace_Compress
     n_rec = 4000 if q else 40000
@@ -260,6 +262,22 @@ def run(ctx):
         "corrupted zstd streams whose frame header announces more than 32 MiB are re-drawn in the bulk replay: the klauspost decoder "
         "allocates the announced size up front (a 13-byte message costs 400 MiB, measured as a note), which would only exhaust the sandbox",
     ]
+
+
+def run_volume(ctx, binp, mib):
+    """Reset/use/Close/Reset(empty) on ONE compressor and ONE decompressor per encoding for `mib` MiB of valid
+    messages (1 MiB and 21 bytes in turn): Compress.tla has no bound on what went through an instance before."""
+    vp = os.path.join(ctx.build, "c20.volume.ndjson")
+    ctx.run_harness(binp, "TestVerifC20Volume", env=dict(VERIF_OUT=vp, VERIF_MIB=mib), timeout=2400)
+    recs = vf.read_ndjson(vp)
+    ctx.notes["volume"] = [dict(enc=r["enc"], rounds=r["rounds"], mib=r["mib"], ret=r["ret"]) for r in recs]
+    for r in recs:
+        ctx.cov["evaluations"] += r["rounds"]
+        ctx.cov["traces_validated_against_impl"] += 1
+        if r["ret"] != "ok":
+            ctx.candidate(dict(component="volume", enc=r["enc"], obs_ret=r["ret"]),
+                          "%s instances reused as a pool reuses them: %s fails after %d MiB of valid messages: %s %s" % (
+                              r["enc"], r["at"], r["mib"], r["ret"], r["err"][:300]), dict(component="volume", mib=mib, probe=r))
 
 
 def run_hazard(ctx, binp):
@@ -401,6 +419,8 @@ def run_replay(ctx):
         run_names(ctx, xc, [sc["obl"]])
     elif comp == "hazard":
         run_hazard(ctx, ctx.go_test_bin("internal/compression", ["c20"]))
+    elif comp == "volume":
+        run_volume(ctx, ctx.go_test_bin("internal/compression", ["c20"]), sc.get("mib", 160))
     elif comp == "instance-recorded":
         meta = json.load(open(ctx.replay))
         if meta.get("seed") != ctx.seed:
